@@ -121,7 +121,7 @@ def nontrivial(c):
 def params(ctx):
     if ctx.tier == "quick":
         return dict(cfg="Framing_mc_quick.cfg", big=8, huge=0, onemax=4096, fuzz=400, maxbytes=1 << 20)
-    return dict(cfg="Framing_mc_thorough.cfg", big=48, huge=3, onemax=70000, fuzz=6000, maxbytes=4 << 20)
+    return dict(cfg="Framing_mc_thorough.cfg", big=48, huge=3, onemax=70000, fuzz=4000, maxbytes=4 << 20)
 
 
 def run(ctx):
